@@ -590,6 +590,56 @@ def lists(rec, rng, k):
         compare(rec, f"list #{k}", s, "proc", None, inp, qualname(tb), case)
 
 
+def reexports(rec, rng, k, spec=None):
+    """Export, export again, extend the Sim, rename the testbench, share unnamed analysis objects: every export is judged against
+    the Sim as it stands at that moment."""
+    import copy as _copy
+    import hdl21.sim as hs
+    from hdl21.qualname import qualname
+
+    spec = spec if spec is not None else rspec(rng)
+    case = {"kind": "reexport", "spec": spec}
+    rec.case(key=jhash(case), nontrivial=True, sample=case if k % 200 == 1 else None)
+    rec.count("reexport.histories")
+    try:
+        tb = make_tb()
+        sim, _ = build_sim(spec, "proc", tb)
+        steps = []
+        inp = hs.to_proto(sim)
+        compare(rec, f"reexport #{k} first", spec, "proc", None, inp, qualname(tb), case)
+        inp = hs.to_proto(sim)
+        compare(rec, f"reexport #{k} again", spec, "proc", None, inp, qualname(tb), case)
+        # grow the Sim by unnamed analyses (and one inside a sweep), then export again
+        spec2 = _copy.deepcopy(spec)
+        extra = [{"k": "op", "name": None}, {"k": "tran", "tstop": ["int", 1], "tstep": None, "name": None},
+                 {"k": "monte", "npts": 3, "name": None, "inner": [{"k": "op", "name": None}]}]
+        rng.shuffle(extra)
+        params, cache = {}, {}
+        for a in extra[: rng.randint(1, 3)]:
+            spec2["attrs"].append(a)
+            sim.add(mk_attr(a, tb, params, cache))
+        inp = hs.to_proto(sim)
+        compare(rec, f"reexport #{k} grown", spec2, "proc", None, inp, qualname(tb), case)
+        # rename the testbench; `top` names the testbench module as it is called now
+        tb.name = tb.name + "_renamed"
+        inp = hs.to_proto(sim)
+        compare(rec, f"reexport #{k} renamed-tb", spec2, "proc", None, inp, qualname(tb), case)
+        # one unnamed analysis object shared by two Sims of a list, and used twice in one Sim
+        shared = hs.Op()
+        tb2 = make_tb()
+        s1 = hs.Sim(tb=tb2, attrs=[shared, hs.Tran(tstop=1), hs.Ac(sweep=hs.LogSweep(start=1, stop=10, npts=2))])
+        s2 = hs.Sim(tb=tb2, attrs=[hs.Tran(tstop=2), shared, hs.MonteCarlo(inner=[shared, hs.Tran(tstop=3)], npts=2)])
+        for which, inps in (("list", hs.to_proto([s1, s2])), ("list-again", hs.to_proto([s2, s1]))):
+            for inp in inps:
+                names = all_names([dec_analysis(a) for a in inp.an])
+                rec.count("reexport.shared-analysis")
+                if len(set(names)) != len(names) or any(not n for n in names):
+                    rec.violation("analysis-names-not-distinct", f"[reexport #{k} shared unnamed analysis, {which}] analysis names {names}", case=case,
+                                  style="shared")
+    except Exception as e:
+        rec.violation(f"sim-reexport-raises:{type(e).__name__}", f"[reexport #{k}] raised {type(e).__name__}: {str(e)[:140]}", case=case)
+
+
 def bad_tbs(rec):
     import hdl21.sim as hs
 
@@ -617,6 +667,8 @@ def run(ctx, rec):
         one(rec, rng, k)
     for k in range(n // 4):
         lists(rec, rng, k)
+    for k in range(n // 5):
+        reexports(rec, rng, k)
     if ctx.shard == 0:
         bad_tbs(rec)
     rec.exhaustive = False
@@ -633,6 +685,10 @@ def replay(ctx, rec, case):
     attach(rec)
     if case.get("kind") == "tb":
         bad_tbs(rec)
+        return
+    if case.get("kind") == "reexport":
+        for seed in range(6):
+            reexports(rec, random.Random(seed), seed, spec=case["spec"])
         return
     import hdl21.sim as hs
     from hdl21.qualname import qualname
